@@ -76,8 +76,11 @@ def run(prop, tier):
     # fragments or delays writes -> random walks with partial / blocked writes, validated by PosterTrace
     extra_runs, extra_viol, tstats = 0, [], {"states": 0}
     if prop == "C01":
-        fam = session_checks.walkfam("wake", "wake", 160, 2000)
-        pairs = session_checks.gen_family(bins, fam, tier, d)
+        pairs = []
+        # blocked / partial writes alone, and mixed with cancellations (a caller giving up while its packet is half written)
+        for fam in (session_checks.walkfam("wake", "wake", 160, 2000), session_checks.walkfam("mixed", "wake", 160, 2000),
+                    session_checks.genfam("cutwrite", "cutwrite", 1, 1)):
+            pairs += session_checks.gen_family(bins, fam, tier, d)
         verdicts, tstats = vlib.validate_many([p[0] for p in pairs], prop, workers=8)
         extra_runs = len(verdicts)
         script_of = dict(pairs)
